@@ -561,6 +561,12 @@ func c22Corpus() []c22Input {
 			W(4, 4, 5), {Kind: "snap", Compact: true}, S(1), {Kind: "restart", Node: 1, Force: true}, J}},
 		c22Input{Ops: []c22Op{W(1, 12, 1), S(0), {Kind: "load", Data: all(3), Wal: true}, W(2, 3, 4), {Kind: "snap", Out: "blocked"}, {Kind: "snap", Out: "failbefore"}, {Kind: "snap", Out: "notinvoked"},
 			W(4, 4, 5), S(0), {Kind: "restart", Force: true}, {Kind: "snap", Compact: true}, J}},
+		// an incremental snapshot whose persist is skipped leaves a staged WAL; a boot replaces the database; the next
+		// incremental must not package the stale WAL: rebuild by unclean restart and by a joiner that gets the snapshot
+		c22Input{Ops: []c22Op{W(1, 24, 1), S(0), W(1, 24, 2), {Kind: "snap", Out: "notinvoked"}, {Kind: "boot", Data: all(3), Wal: true}, W(2, 3, 4), S(0),
+			{Kind: "restart", Force: true}, J, W(5, 5, 6), S(1), {Kind: "restart", Node: 1, Force: true}}},
+		c22Input{Ops: []c22Op{W(1, 24, 1), S(0), W(5, 20, 2), {Kind: "snap", Out: "failbefore"}, W(1, 9, 5), {Kind: "snap", Out: "notinvoked"}, {Kind: "boot", Data: all(3), Wal: false}, W(21, 22, 4),
+			{Kind: "snap", Compact: true}, J, {Kind: "restart", Force: true}}},
 		// SQL-text load and DELETE-mode file load
 		c22Input{Ops: []c22Op{W(1, 6, 1), S(0), {Kind: "loadsql", Data: all(2)}, S(0), J, {Kind: "load", Data: all(5), Wal: false}, S(0), S(1), R(1), W(1, 2, 6), R(0)}},
 	)
